@@ -18,7 +18,7 @@ ID = 'C10'
 RULE = ('RuleBasedStateMachine histories over the public API of one TBRMatchedMarkets object built from a drawn (panel <=5 geos, '
         'eligibility, parameters) spec (half of the >=4-geo specs with two control-only geos carrying identical series, i.e. exactly tied designs): geos_over_budget, geos_too_large, geos_must_include, geos_within_constraints, '
         'geo_assignments, treatment_group_size_range, count_max_designs, treatment_group_generator(n), '
-        'control_group_generator(T), design_within_constraints(T, C), exhaustive_search, greedy_search, search_results. '
+        'control_group_generator(T), design_within_constraints(T, C), exhaustive_search, greedy_search, search_results, and the caller editing the list or the design objects it was handed (pop, reverse, clear, geo sets changed) followed by a retrieval. '
         'Each answer (or exception type) is compared with the same call on a freshly built object; parameters / frame / '
         'eligibility frame must stay equal to deep copies. Non-trivial = history with >=2 searches, or >=2 retrievals, or a '
         'query after a search; distinct by spec hash (inputs + op sequence).')
@@ -79,6 +79,7 @@ class Runner:
     self.last_search = None
     self.dead = False
     self.tied = False
+    self.mutated = False
     self.df0 = self.case.df.copy(deep=True)
     self.el0 = None if self.case.elig_df is None else self.case.elig_df.copy(deep=True)
     try:
@@ -131,11 +132,42 @@ class Runner:
       return ('exc', type(e).__name__, str(e)[:120])
     raise ValueError(op)
 
+  def _mutate_returned(self, how):
+    """The caller edits what it was handed (the list and the design objects in it are the caller's copies)."""
+    try:
+      if how == 4 and self.last_search:
+        np.random.seed(777)
+        raw = getattr(self.obj, self.last_search)()
+        self.searches += 1
+      else:
+        raw = self.obj.search_results()
+      if not isinstance(raw, list):
+        return
+      if how == 0 and raw:
+        raw.pop(0)
+      elif how == 1:
+        raw.reverse()
+      elif how == 2:
+        raw.clear()
+      elif raw:
+        d = raw[0]
+        if isinstance(d.treatment_geos, set):
+          d.treatment_geos.add('no-such-geo')
+        if isinstance(d.control_geos, set):
+          d.control_geos.clear()
+        raw.sort(key=lambda x: len(x.treatment_geos))
+    except Exception:  # pylint: disable=broad-except
+      pass          # failures of the calls themselves are reported by the ordinary ops
+
   def step(self, op):
     if self.dead:
       return
     self.spec['ops'].append(op)
     kind = op[0]
+    if kind == 'mutate_returned':
+      self._mutate_returned(op[1])
+      self.mutated = True
+      return
     got = self._call(self.obj, op)
     try:
       fresh = self._build()
@@ -182,6 +214,8 @@ class Runner:
       cls.append('input-rejected')
     if self.tied:
       cls.append('exactly-tied-designs-returned')
+    if self.mutated:
+      cls.append('caller-edited-returned-designs')
     if self.spec['base']['panel'].get('copy'):
       cls.append('twin-geos')
     return {'viol': list(self.viol[:3]), 'nt': nt, 'cls': cls, 'dc': 0}
@@ -275,6 +309,12 @@ def machine(tier, sink):
     @rule()
     def results_twice(self):
       self._do(['search_results'])
+      self._do(['search_results'])
+
+    @precondition(lambda self: self.r is not None and self.r.last_search is not None)
+    @rule(how=st.integers(0, 4))
+    def edit_returned_then_retrieve(self, how):
+      self._do(['mutate_returned', how])
       self._do(['search_results'])
 
     def teardown(self):
